@@ -8,7 +8,7 @@ git -C /repo worktree add -q --detach "$WT" HEAD 2>/dev/null || git -C "$WT" che
 for d in seeded/${1:-C*}; do
   [ -f "$d/patch.diff" ] || continue
   name=$(basename "$d"); id=${name%%_*}
-  git -C "$WT" checkout -q -- . 
+  git -C "$WT" checkout -q -- . ; git -C "$WT" clean -fdq semantiva
   if ! git -C "$WT" apply "$PWD/$d/patch.diff" 2>/dev/null; then echo "$name n.a. (patch does not apply on HEAD)"; continue; fi
   out=$(VERIF_REPO=$WT PYTHONPATH=$WT ./vcheck $id --tier quick --no-shrink 2>&1); rc=$?
   n=$(echo "$out" | grep -c VIOLATION)
